@@ -1,5 +1,6 @@
 """C01 - a request completes only with the response that bears its own id."""
 from harness.sm import *  # noqa
+from symcheck.env import Ticks  # noqa
 from harness import sm
 
 RID = "rid-1"
@@ -57,7 +58,7 @@ def sched(kinds, gaps, T):
     """Schedule family: concrete kind tuple, symbolic gaps and timeout (ticks)."""
     ts = abs_ticks(gaps)
     script = _script(kinds, gaps, RID)
-    out = run_stub(script, lambda r, w: SM.send_message(r, w, METHOD, dict(PARAMS), timeout=T, message_id=RID))
+    out = run_stub(script, lambda r, w: SM.send_message(r, w, METHOD, dict(PARAMS), timeout=Ticks(T), message_id=RID))
     return _judge_sched(out, kinds, ts, T, RID, METHOD, PARAMS)
 
 
@@ -141,7 +142,7 @@ def idfam(kinds, gaps, T, rid, other):
         else:
             m = build(k, i, rid)
         script.append((ts[i], m))
-    out = run_stub(script, lambda r, w: SM.send_message(r, w, METHOD, dict(PARAMS), timeout=T, message_id=rid))
+    out = run_stub(script, lambda r, w: SM.send_message(r, w, METHOD, dict(PARAMS), timeout=Ticks(T), message_id=rid))
     return _judge_sched(out, kinds, ts, T, rid, METHOD, PARAMS)
 
 
@@ -177,7 +178,7 @@ def autoid(kinds, gaps, T):
     items = []
     for i in range(len(kinds)):
         items.append((ts[i], _Lazy(kinds[i], i)))
-    out = run_stub(_LazyList(items), lambda r, w: SM.send_message(r, w, METHOD, dict(PARAMS), timeout=T, message_id=""))
+    out = run_stub(_LazyList(items), lambda r, w: SM.send_message(r, w, METHOD, dict(PARAMS), timeout=Ticks(T), message_id=""))
     if len(out.wire) < 1:
         return "wire:nothing-written"
     rid = dump(out.wire[0][1]).get("id")
@@ -222,7 +223,7 @@ def methfam(psel, method, leaf, gap, T):
 
     want = copy.deepcopy(params)
     script = [(gap, build(K_RESULT, 0, RID))]
-    out = run_stub(script, lambda r, w: SM.send_message(r, w, method, params, timeout=T, message_id=RID))
+    out = run_stub(script, lambda r, w: SM.send_message(r, w, method, params, timeout=Ticks(T), message_id=RID))
     return _judge_sched(out, (K_RESULT,), [gap], T, RID, method, want)
 
 
@@ -310,7 +311,7 @@ def helper(name, gaps, T, code):
     kw = helper_args(fn)
     ts = abs_ticks(gaps)
     items = [(ts[0], _Lazy(K_SAMEID_REQ, 0)), (ts[1], _LazyErr(code))]
-    out = run_stub(_LazyList2(items), lambda r, w: fn(r, w, timeout=T, **kw))
+    out = run_stub(_LazyList2(items), lambda r, w: fn(r, w, timeout=Ticks(T), **kw))
     return _judge_helper(out, name, ts, T, code)
 
 
